@@ -7,8 +7,11 @@ hand): SessionResponse (with or without device authentication), wrapped SessionS
 and then a generated history of frames: genuine wrappers (next / skipped / same / old
 sequence numbers), forged ones (MAC, ciphertext, sequence field, session id, key), plain
 frames of every service type, nested wrappers, wrapped remote-diagnosis services,
-SessionResponse before / after initialisation - interleaved with client sends, 50 s idle
-periods (keepalive), stop and reconnect.
+SessionResponse before / after initialisation, wrapped SessionStatus frames of every
+status code from the server at any point (CLOSE / TIMEOUT / UNAUTHENTICATED make the
+client close the transport) followed by further frames in the same TCP chunk, in the next
+loop iteration and later - interleaved with client sends, 50 s idle periods (keepalive),
+stop and reconnect.
 
 Oracle (event log of the fake transport + a catch-all callback on the session):
   receive: a wrapped frame is passed on (exactly once, with the decrypted content) iff it
@@ -40,6 +43,7 @@ LEVEL = "exploration"
 TECHNIQUE = "stateful model-based histories (Hypothesis) against the real SecureSession on a virtual-time loop; server side and all frames built with an independent IP-Secure reference; freshness model + wire-log oracle"
 RULE = (
     "history = handshake (connect, SessionResponse, wrapped SessionStatus) with generated noise before / inside / after it, then up to 14 ops: wrapped frame (inner service from a catalogue of all service types, nested wrapper, remote diagnosis; "
+    "several frames coalesced into one TCP chunk (in particular a server-side SessionStatus of any code followed by plain / wrapped frames, which are still handled before connection_lost runs), "
     "sequence mode next/skip/same/old/zero/big/max; flaw none/MAC/ciphertext/sequence field/session id (wrapped for another id, or id field overwritten)/key), plain frame of any service, client send, idle 51..61 s, stop, reconnect; "
     "non-trivial = session initialised and at least one wrapped frame that must be rejected (replayed/old number, forged, forbidden or plain) was delivered after initialisation together with at least one that must be accepted; distinct by history"
 )
@@ -52,6 +56,8 @@ ASSUMPTIONS = [
     "a plain SessionResponse between initialisation and successful authentication may be passed on or dropped (statement: 'before authentication'); after authentication it must be dropped",
     "exceptions raised by the receive path (a SecureWrapper before the session is initialised raises CouldNotParseKNXIP out of data_received) are counted in the evidence notes, not judged: C29 does not state a no-raise clause",
     "callback frames are compared through KNXIPFrame.to_knx() (codec judged by C20/C21)",
+    "after the server ended the session (accepted wrapped SessionStatus CLOSE / TIMEOUT / UNAUTHENTICATED after authentication) the rest of the chunk is still handled: nothing plain may be passed on (authentication has happened), wrapped frames only if genuine and fresh; that they must still be passed on is not demanded. Frames behind a frame that made data_received raise are not demanded either",
+    "after transport.close() no further data_received call reaches the client (as with real asyncio transports): frames following a server-side close in a later loop iteration are generated but not delivered",
 ]
 
 GW = ("10.0.0.1", 3671)
@@ -159,60 +165,62 @@ def execute(case):
 
     async def scenario(loop):
         loop.net = Net()
-        session = mod.SecureSession(remote_addr=GW, user_id=int(case.get("user_id", 2)), user_password=user_pw, device_authentication_password=dev_pw, connection_lost_cb=lambda: events.append(("lost", srv["epoch"])))
-        session.register_callback(lambda f, src, tr: events.append(("cb", cur[0], f.header.service_type_ident.value, f.to_knx())), None)
+        class _Recording(mod.SecureSession):
+            """Real session; only notes which received frame is being handled (to attribute callbacks inside a chunk)."""
+
+            __slots__ = ()
+
+            def handle_knxipframe(self, knxipframe, source):
+                hk[0] += 1
+                hk[1] = knxipframe.to_knx()
+                return super().handle_knxipframe(knxipframe, source)
+
+        hk = [0, b""]
+        session = _Recording(remote_addr=GW, user_id=int(case.get("user_id", 2)), user_password=user_pw, device_authentication_password=dev_pw, connection_lost_cb=lambda: events.append(("lost", srv["epoch"])))
+        session.register_callback(lambda f, src, tr: events.append(("cb", cur[0], f.header.service_type_ident.value, f.to_knx(), hk[0], hk[1])), None)
         connect_task = [None]
 
-        def deliver(raw: bytes, meta: dict) -> None:
+        def deliver(items: list) -> None:
+            """Hand one TCP chunk (one or several complete frames) to the client in the next loop iteration."""
             tr = srv["tr"]
-            meta = {**meta, "epoch": srv["epoch"], "raw": raw}
-            if tr is None or tr.closed:
+            items = [it for it in items if it is not None]
+            if tr is None or tr.closed or not items:
                 return
-            k = len(frames)
-            frames.append(meta)
+            ks = []
+            for raw, meta in items:
+                ks.append(len(frames))
+                frames.append({**meta, "epoch": srv["epoch"], "raw": raw})
+            chunk = b"".join(raw for raw, _ in items)
 
             def _do() -> None:
                 if tr.closed:
                     return
-                events.append(("rx", k, loop.time()))
-                cur[0] = k
+                events.append(("rx", ks, loop.time()))
+                cur[0] = ks[0]
                 try:
-                    tr.protocol.data_received(raw)
+                    tr.protocol.data_received(chunk)
                 except Exception as e:  # noqa: BLE001
-                    events.append(("rxexc", k, exc_site(e), repr(e)))
+                    events.append(("rxexc", ks[0], exc_site(e), repr(e)))
                 finally:
                     cur[0] = None
 
             loop.call_soon(_do)
 
-        def do(op) -> None:
+        def build(op):
+            """(raw, meta) of one server->client frame; op = [.., kind, args...] (op[0] ignored)."""
             kind = op[1]
-            if kind == "connect":
-                if (connect_task[0] is None or connect_task[0].done()) and session.transport is None:
-                    t = connect_task[0] = loop.create_task(session.connect())
-
-                    def _done(task, ep=srv["epoch"] + 1):
-                        if task.cancelled():
-                            events.append(("connect", ep, "cancelled"))
-                        elif task.exception() is not None:
-                            e = task.exception()
-                            events.append(("connect", ep, type(e).__name__, exc_site(e)))
-                        else:
-                            events.append(("connect", ep, "ok"))
-
-                    t.add_done_callback(_done)
-            elif kind == "resp":
+            if kind == "resp":
                 cp = srv["client_pub"] or bytes(32)
                 sp_ = _server_pub(skey)
                 mac = ref.session_response_mac(_dev_code(dev_pw), sid, cp, sp_) if dev_pw else bytes(16)
                 if op[2] == "badmac":
                     mac = bytes([mac[0] ^ 1]) + mac[1:]
                 raw = ref.header(ref.SESSION_RESPONSE_SERVICE, 0x38) + sid.to_bytes(2, "big") + sp_ + mac
-                deliver(raw, {"type": "plain", "name": "session_response", "code": 0x0952, "handshake": op[2]})
-            elif kind == "plain":
+                return raw, {"type": "plain", "name": "session_response", "code": 0x0952, "handshake": op[2]}
+            if kind == "plain":
                 code, raw, ok = inner_frame(op[2])
-                deliver(raw, {"type": "plain", "name": op[2], "code": code})
-            elif kind == "wrap":
+                return raw, {"type": "plain", "name": op[2], "code": code}
+            if kind == "wrap":
                 name, mode, flaw = op[2], op[3], op[4]
                 key = srv["key"]
                 if key is None:
@@ -252,7 +260,33 @@ def execute(case):
                 srv["seq"] = max(hi, wire_seq) if wire_seq < MAX_SEQ else hi
                 if flaw == "none":
                     srv["last"] = seq
-                deliver(bytes(raw), {"type": "wrap", "name": name, "code": code, "inner": inner, "parseable": ok, "seq": wire_seq, "flaw": flaw, "mode": mode})
+                return bytes(raw), {"type": "wrap", "name": name, "code": code, "inner": inner, "parseable": ok, "seq": wire_seq, "flaw": flaw, "mode": mode}
+            raise HarnessError(f"not a receive op: {op}")
+
+        def do(op) -> None:
+            kind = op[1]
+            if kind == "connect":
+                if (connect_task[0] is None or connect_task[0].done()) and session.transport is None:
+                    t = connect_task[0] = loop.create_task(session.connect())
+
+                    def _done(task, ep=srv["epoch"] + 1):
+                        if task.cancelled():
+                            events.append(("connect", ep, "cancelled"))
+                        elif task.exception() is not None:
+                            e = task.exception()
+                            events.append(("connect", ep, type(e).__name__, exc_site(e)))
+                        else:
+                            events.append(("connect", ep, "ok"))
+
+                    t.add_done_callback(_done)
+            elif kind in ("resp", "plain", "wrap"):
+                if srv["tr"] is not None and not srv["tr"].closed:
+                    deliver([build(op)])
+            elif kind == "chunk":
+                # several frames in ONE data_received call (TCP coalescing): what follows a frame that makes
+                # the client close the transport is still parsed and handled before connection_lost runs
+                if srv["tr"] is not None and not srv["tr"].closed:
+                    deliver([build([0, *sub]) for sub in op[2]])
             elif kind == "send":
                 code, raw, ok = inner_frame(op[2])
                 frame, _ = KNXIPFrame.from_knx(raw)
@@ -313,9 +347,83 @@ def _why(m, cands, foreign=False) -> str:
     return "old-sequence-number"
 
 
+def _judge_frame(ctx, inp, info, st_, m, got, raised: bool, in_chunk: bool) -> None:
+    """Verdict for one delivered frame given the callbacks attributed to it; updates the epoch model."""
+    e_ = st_.get(m["epoch"])
+    if e_ is None:
+        raise HarnessError("frame delivered without connection")
+    n = len(got)
+    if e_["srv_closed"]:
+        info["after_server_close"] += 1
+    if m["type"] == "plain":
+        if m["code"] == 0x0952 and not e_["auth"]:
+            if n > 1:
+                ctx.fail("C29:passed-on:twice", inp, f"plain SessionResponse handed to the callback {n} times")
+            if n and not e_["init"]:
+                # the client uses the last SessionResponse it got before it resumed; if that is not the
+                # simulator's own, the session key is unknown to the oracle ("foreign" epoch)
+                e_["foreign"] = m.get("handshake") is None
+            return
+        if n:
+            why = "session-response-after-authentication" if m["code"] == 0x0952 else f"{m['code']:04x}"
+            ctx.fail(f"C29:accepted:plain:{why}", inp, f"plain frame {m['name']} ({m['raw'].hex()}) passed on (initialised={e_['init']}, authenticated={e_['auth']})")
+        if e_["init"]:
+            info["must_reject"] += 1
+        return
+    # wrapped
+    authentic = m["flaw"] == "none" and e_["init"] and e_["key"] is not None and not e_["foreign"]
+    allowed = m["parseable"] and m["code"] not in secureio.FORBIDDEN_WRAPPED
+    cands = e_["cands"]
+    fresh = {m["seq"] > l for l in cands}
+    if not e_["init"]:
+        if n:
+            ctx.fail("C29:accepted:wrapped-before-initialisation", inp, f"wrapped {m['name']} passed on before the session key exists")
+        return
+    if not authentic or not allowed or fresh == {False}:
+        info["must_reject"] += 1
+        if n:
+            ctx.fail(f"C29:accepted:{_why(m, cands, e_['foreign'])}", inp, f"wrapped {m['name']} seq={m['seq']} flaw={m['flaw']} passed on; last accepted sequence number(s) {sorted(cands)}")
+            if authentic and allowed:
+                e_["cands"] = {m["seq"]}
+        elif authentic and not m["parseable"] and True in fresh and m["code"] not in secureio.FORBIDDEN_WRAPPED:
+            e_["cands"] = cands | {m["seq"]}  # may or may not have advanced
+        e_["rejected_hi"] = m["seq"] if e_["rejected_hi"] is None else max(e_["rejected_hi"], m["seq"])
+        return
+    if fresh == {True}:
+        info["must_accept"] += 1
+        if n == 0 and ((raised and in_chunk) or e_["srv_closed"]):
+            # not stated: frames behind a raising frame in the same chunk were never looked at; after the server
+            # ended the session (accepted CLOSE / TIMEOUT / UNAUTHENTICATED) nothing has to be passed on any more
+            return
+        if n != 1:
+            after = e_["rejected_hi"] is not None and e_["rejected_hi"] >= m["seq"]
+            ctx.fail(
+                "C29:dropped:fresh-frame:after-rejected-frame" if (n == 0 and after) else ("C29:dropped:fresh-frame" if n == 0 else "C29:passed-on:twice"),
+                inp,
+                f"genuine wrapped {m['name']} seq={m['seq']} (last accepted {sorted(cands)}, highest rejected {e_['rejected_hi']}) handed to the callback {n} times",
+            )
+            if n == 0:
+                return
+        e_["cands"] = {m["seq"]}
+    else:  # depends on the unparseable-inner ambiguity
+        if n:
+            e_["cands"] = {m["seq"]}
+        else:
+            e_["cands"] = {l for l in cands if not m["seq"] > l}
+    if n:
+        if got[0][3] != m["inner"]:
+            ctx.fail("C29:passed-on:content", inp, f"callback got {got[0][3].hex()} for wrapped {m['inner'].hex()}")
+        if m["inner"] == status_frame(0):
+            e_["auth"] = True
+            info["auth"] = True
+        elif e_["auth"] and m["inner"] in (status_frame(2), status_frame(3), status_frame(5)):
+            e_["srv_closed"] = True
+            info["srv_closed"] = True
+
+
 def judge(ctx, case, events, frames, escaped, cfg) -> dict:
     inp = case
-    info = {"init": False, "auth": False, "must_reject": 0, "must_accept": 0, "keepalive": 0, "epochs": 0, "tx_wrapped": 0}
+    info = {"init": False, "auth": False, "must_reject": 0, "must_accept": 0, "keepalive": 0, "epochs": 0, "tx_wrapped": 0, "srv_closed": False, "after_server_close": 0}
     for e in escaped:
         exc = e["exception"]
         ctx.fail(f"C29:escaped:{exc_site(exc) if exc is not None else e['message'][:40]}", inp, e["repr"] + " " + e["message"])
@@ -333,7 +441,7 @@ def judge(ctx, case, events, frames, escaped, cfg) -> dict:
     st_ = {}
 
     def new_epoch(n):
-        return {"n": n, "client_pub": None, "key": None, "init": False, "auth": False, "cands": {-1}, "tx_last": None, "rejected_hi": None, "foreign": False}
+        return {"n": n, "client_pub": None, "key": None, "init": False, "auth": False, "cands": {-1}, "tx_last": None, "rejected_hi": None, "foreign": False, "srv_closed": False}
 
     for ev in events:
         kind = ev[0]
@@ -384,70 +492,26 @@ def judge(ctx, case, events, frames, escaped, cfg) -> dict:
                     ep["client_pub"] = data[14:46]
                     ep["key"] = _session_key(cfg["skey"], ep["client_pub"])
         elif kind == "rx":
-            k = ev[1]
-            m = frames[k]
-            got = cbs.get(k, [])
-            e_ = st_.get(m["epoch"])
-            if e_ is None:
-                raise HarnessError("frame delivered without connection")
-            n = len(got)
-            if m["type"] == "plain":
-                if m["code"] == 0x0952 and not e_["auth"]:
-                    if n > 1:
-                        ctx.fail("C29:passed-on:twice", inp, f"plain SessionResponse handed to the callback {n} times")
-                    if n and not e_["init"]:
-                        # the client uses the last SessionResponse it got before it resumed; if that is not the
-                        # simulator's own, the session key is unknown to the oracle ("foreign" epoch)
-                        e_["foreign"] = m.get("handshake") is None
+            ks = ev[1]
+            got_all = cbs.get(ks[0], [])
+            raised = any(x[0] == "rxexc" and x[1] == ks[0] for x in events)
+            # callbacks are grouped by the handle_knxipframe() call they happened in; the calls come in frame
+            # order and see the frame as received, so each is given to the first not yet served identical frame
+            per: dict[int, list] = {k: [] for k in ks}
+            groups: dict[int, list] = {}
+            for cb in got_all:
+                groups.setdefault(cb[4], []).append(cb)
+            ptr = 0
+            for hid in sorted(groups):
+                grp = groups[hid]
+                j = next((i for i in range(ptr, len(ks)) if frames[ks[i]]["raw"] == grp[0][5]), None)
+                if j is None:
+                    ctx.fail("C29:passed-on:unknown-frame", inp, f"callback for a frame that was not delivered in this chunk: {grp[0][5].hex()}")
                     continue
-                if n:
-                    why = "session-response-after-authentication" if m["code"] == 0x0952 else f"{m['code']:04x}"
-                    ctx.fail(f"C29:accepted:plain:{why}", inp, f"plain frame {m['name']} ({m['raw'].hex()}) passed on (initialised={e_['init']}, authenticated={e_['auth']})")
-                if e_["init"]:
-                    info["must_reject"] += 1
-                continue
-            # wrapped
-            authentic = m["flaw"] == "none" and e_["init"] and e_["key"] is not None and not e_["foreign"]
-            allowed = m["parseable"] and m["code"] not in secureio.FORBIDDEN_WRAPPED
-            cands = e_["cands"]
-            fresh = {m["seq"] > l for l in cands}
-            if not e_["init"]:
-                if n:
-                    ctx.fail("C29:accepted:wrapped-before-initialisation", inp, f"wrapped {m['name']} passed on before the session key exists")
-                continue
-            if not authentic or not allowed or fresh == {False}:
-                info["must_reject"] += 1
-                if n:
-                    ctx.fail(f"C29:accepted:{_why(m, cands, e_['foreign'])}", inp, f"wrapped {m['name']} seq={m['seq']} flaw={m['flaw']} passed on; last accepted sequence number(s) {sorted(cands)}")
-                    if authentic and allowed:
-                        e_["cands"] = {m["seq"]}
-                elif authentic and not m["parseable"] and True in fresh and m["code"] not in secureio.FORBIDDEN_WRAPPED:
-                    e_["cands"] = cands | {m["seq"]}  # may or may not have advanced
-                e_["rejected_hi"] = m["seq"] if e_["rejected_hi"] is None else max(e_["rejected_hi"], m["seq"])
-                continue
-            if fresh == {True}:
-                info["must_accept"] += 1
-                if n != 1:
-                    after = e_["rejected_hi"] is not None and e_["rejected_hi"] >= m["seq"]
-                    ctx.fail(
-                        "C29:dropped:fresh-frame:after-rejected-frame" if (n == 0 and after) else ("C29:dropped:fresh-frame" if n == 0 else "C29:passed-on:twice"),
-                        inp,
-                        f"genuine wrapped {m['name']} seq={m['seq']} (last accepted {sorted(cands)}, highest rejected {e_['rejected_hi']}) handed to the callback {n} times",
-                    )
-                    if n == 0:
-                        continue
-                e_["cands"] = {m["seq"]}
-            else:  # depends on the unparseable-inner ambiguity
-                if n:
-                    e_["cands"] = {m["seq"]}
-                else:
-                    e_["cands"] = {l for l in cands if not m["seq"] > l}
-            if n:
-                if got[0][3] != m["inner"]:
-                    ctx.fail("C29:passed-on:content", inp, f"callback got {got[0][3].hex()} for wrapped {m['inner'].hex()}")
-                if m["inner"] == status_frame(0):
-                    e_["auth"] = True
-                    info["auth"] = True
+                ptr = j + 1
+                per[ks[j]].extend(grp)
+            for k in ks:
+                _judge_frame(ctx, inp, info, st_, frames[k], per[k], raised, len(ks) > 1)
     return info
 
 
@@ -496,6 +560,23 @@ def _resp_op(dt=_dt):
     return st.tuples(dt, st.just("resp"), st.sampled_from(["ok", "ok", "ok", "badmac"]))
 
 
+_sub_wrap = st.tuples(st.just("wrap"), _inner, _mode, _flaw)
+_sub_plain = st.tuples(st.just("plain"), st.one_of(st.sampled_from(_CAT_NAMES), st.sampled_from(list(STATUS)), st.just("session_response")))
+_sub_resp = st.tuples(st.just("resp"), st.sampled_from(["ok", "ok", "badmac"]))
+_sub_status = st.tuples(st.just("wrap"), st.sampled_from(list(STATUS)), st.sampled_from(["next", "next", "skip", "same"]), st.sampled_from(["none", "none", "none", "mac"]))
+
+
+def _chunk_op(dt=_dt):
+    """Several frames coalesced into one TCP chunk; biased to 'server status, then plain / wrapped frames'."""
+    subs = st.lists(st.one_of(_sub_wrap, _sub_plain, _sub_resp, _sub_status), min_size=2, max_size=5)
+    close_then = st.tuples(_sub_status, st.lists(st.one_of(_sub_plain, _sub_resp, _sub_resp, _sub_wrap), min_size=1, max_size=3)).map(lambda t: [t[0], *t[1]])
+    return st.tuples(dt, st.just("chunk"), st.one_of(subs, close_then).map(lambda l: [list(x) for x in l]))
+
+
+def _status_op(dt=_dt):
+    return st.tuples(dt, st.just("wrap"), st.sampled_from(list(STATUS)), st.sampled_from(["next", "next", "skip"]), st.just("none"))
+
+
 def _noise(dt=_dt_short, n=3):
     return st.lists(st.one_of(_plain_op(dt), _plain_op(dt), _wrap_op(dt), _send_op(dt), _resp_op(dt)), max_size=n)
 
@@ -510,14 +591,14 @@ def histories(draw):
     ops += draw(_noise(n=2))
     if draw(st.integers(0, 9)) > 0:
         ops.append((draw(st.sampled_from([1, 5, 100])), "wrap", "status_ok", "next", "none"))
-    body = draw(st.lists(st.one_of(_wrap_op(), _wrap_op(), _wrap_op(), _plain_op(), _send_op(), _resp_op()), min_size=1, max_size=14))
+    body = draw(st.lists(st.one_of(_wrap_op(), _wrap_op(), _wrap_op(), _plain_op(), _send_op(), _resp_op(), _chunk_op(), _chunk_op(), _status_op()), min_size=1, max_size=14))
     ops += body
     if draw(st.integers(0, 3)) == 0:
         ops.append((draw(_dt), "stop"))
         ops.append((draw(_dt_short), "connect"))
         ops.append((5, "resp", "ok"))
         ops.append((5, "wrap", "status_ok", "next", "none"))
-        ops += draw(st.lists(st.one_of(_wrap_op(), _plain_op(), _send_op()), max_size=5))
+        ops += draw(st.lists(st.one_of(_wrap_op(), _plain_op(), _send_op(), _chunk_op()), max_size=5))
     return {
         "user": draw(st.integers(0, 1)),
         "dev": draw(st.integers(0, 2)),
@@ -541,7 +622,18 @@ def _labels(case, info) -> list[str]:
             cl.append("keepalive-sent")
         if info["epochs"] > 1:
             cl.append("reconnect")
+        if info["srv_closed"]:
+            cl.append("server-side-close-accepted")
+        if info["after_server_close"]:
+            cl.append("frames-handled-after-server-side-close")
+    flat = []
     for o in ops:
+        if o[1] == "chunk":
+            cl.append("chunk(several frames in one data_received)")
+            flat += [[0, *sub] for sub in o[2]]
+        else:
+            flat.append(o)
+    for o in flat:
         if o[1] == "wrap":
             cl.append(f"flaw:{o[4]}")
             cl.append(f"seq:{o[3]}")
@@ -585,6 +677,28 @@ def _sweep_shard(ctx, part: int) -> None:
                 nt += 1
     ctx.bulk(n, nt, "sweep:every-service-plain-and-wrapped")
     ctx.sample({"sweep": "connect, plain X, response, plain X, status, plain X / wrapped X fresh, forged, replayed", "part": part})
+    # every server-side status code after authentication, followed by every plain frame / the genuine
+    # SessionResponse / a genuine wrapped frame: in the same chunk, in the next loop iteration, 5 ms later
+    followers = [["plain", nm] for nm in _CAT_NAMES + list(STATUS)] + [["resp", "ok"], ["wrap", "tunnelling_request", "next", "none"], ["wrap", "tunnelling_request", "same", "none"]]
+    n = nt = 0
+    for si, status in enumerate(STATUS):
+        for fi, fol in enumerate(followers):
+            if (si + fi) % 4 != part:
+                continue
+            for timing in ("chunk", "next-iteration", "later"):
+                pre = HANDSHAKE + [[5, "wrap", "tunnelling_request", "next", "none"]]
+                st_op = ["wrap", status, "next", "none"]
+                if timing == "chunk":
+                    ops = pre + [[5, "chunk", [st_op, fol, ["wrap", "tunnelling_ack", "next", "none"], ["resp", "ok"]]]]
+                else:
+                    ops = pre + [[5, *st_op], [0 if timing == "next-iteration" else 5, *fol], [0, "resp", "ok"]]
+                case = {"user": 0, "dev": fi % 3, "user_id": 2, "sid": 1 + fi, "skey": si % 3, "ckey": fi, "tail": 1.0, "ops": ops}
+                info = check_case(ctx, case)
+                n += 1
+                if info and info["auth"] and info["must_reject"] and info["must_accept"]:
+                    nt += 1
+    ctx.bulk(n, nt, "sweep:server-status-then-any-frame")
+    ctx.sample({"sweep": "handshake, wrapped SessionStatus <code>, then plain X / SessionResponse / wrapped frame in the same chunk, next iteration, later", "part": part})
 
 
 def selftest(ctx) -> None:
